@@ -24,7 +24,7 @@ func funcProps(name string) []string {
 	case "parse", "Decimal.Scan", "Parse", "MustParse", "Decimal.UnmarshalText":
 		return []string{"C05"}
 	case "parseNumber":
-		return []string{"C05", "C13"}
+		return []string{"C05", "C13", "C06"}
 	case "Decimal.digits", "digits.fmtE", "digits.fmtF":
 		return []string{"C06", "C07", "C13"}
 	case "Decimal.String", "Decimal.MarshalText", "Decimal.appendSpecial", "Decimal.writeSpecial":
